@@ -293,6 +293,13 @@ Definition action_of (a : arg) : action :=
 
 Definition err_sym (is_nil : bool) : arg := ASym (if is_nil then "nil" else "err").
 
+(* the slice arithmetic of conn.writev after a partial writev(2) *)
+Fixpoint drop_sent (sent : Z) (segs : list (list Z)) : list (list Z) :=
+  match segs with
+  | [] => []
+  | s :: r => if sent <? zlen s then zdrop sent s :: r else drop_sent (sent - zlen s) r
+  end.
+
 Section Procs.
 
 (* el.close is needed by conn.write (deferred close) and the handler needs conn.write:
@@ -348,6 +355,7 @@ with conn_write (fuel : nat) (cid : Z) (data : list Z) (w : world) {struct fuel}
   | S f =>
     let c := wc w cid in
     let n := zlen data in
+    if negb (c_opened c) then ((0, false), w) else
     match c_out c with
     | _ :: _ => ((n, true), wsetc w cid (c_set_out c (c_out c ++ data)))
     | [] =>
@@ -388,6 +396,39 @@ with conn_write_loop (fuel : nat) (cid : Z) (data : list Z) (n : Z) (w : world) 
     end
   end
 
+(* conn.writev: at most iov_max segments per writev(2) *)
+with conn_writev_loop (fuel : nat) (cid : Z) (segs : list (list Z)) (n : Z) (w : world) {struct fuel} : (Z * bool) * world :=
+  match fuel with
+  | O => ((0, false), stop w)
+  | S f =>
+    let c := wc w cid in
+    let et := l_et (st w) in
+    let iov := firstn 1024 segs in
+    match sys_wr (c_fd c) (List.concat iov) true w with
+    | (KErr e, w1) =>
+        if is_eagain e then
+          let c1 := wc w1 cid in
+          let w2 := wsetc w1 cid (c_set_out c1 (c_out c1 ++ List.concat segs)) in
+          if et then ((n, true), w2)
+          else let '(r, w3) := epctl "mod" (c_fd c) true et w2 in
+               ((n, match r with RNil => true | _ => false end), w3)
+        else ((0, false), w1)
+    | (KOk sent _, w1) =>
+        let rest := drop_sent sent segs in
+        match List.concat rest with
+        | [] => ((n, true), w1)
+        | _ =>
+          if et then conn_writev_loop f cid rest n w1
+          else
+            let c1 := wc w1 cid in
+            let w2 := wsetc w1 cid (c_set_out c1 (c_out c1 ++ List.concat rest)) in
+            let '(r, w3) := epctl "mod" (c_fd c) true et w2 in
+            ((n, match r with RNil => true | _ => false end), w3)
+        end
+    | (KNone, w1) => ((n, true), w1)
+    end
+  end
+
 (* conn.writev *)
 with conn_writev (fuel : nat) (cid : Z) (segs : list (list Z)) (w : world) {struct fuel} : (Z * bool) * world :=
   match fuel with
@@ -396,6 +437,7 @@ with conn_writev (fuel : nat) (cid : Z) (segs : list (list Z)) (w : world) {stru
     let c := wc w cid in
     let data := List.concat segs in
     let n := zlen data in
+    if negb (c_opened c) then ((0, false), w) else
     match c_out c with
     | _ :: _ => ((n, true), wsetc w cid (c_set_out c (c_out c ++ data)))
     | [] =>
@@ -403,7 +445,7 @@ with conn_writev (fuel : nat) (cid : Z) (segs : list (list Z)) (w : world) {stru
       | [] =>      (* gio.Writev with no segments performs no system call *)
           ((n, true), w)
       | _ =>
-      let '(rn, ok, w1) := conn_write_loop f cid data n w in
+      let '(rn, ok, w1) := conn_writev_loop f cid segs n w in
       if ok then ((rn, true), w1)
       else let '(_, w2) := el_close f cid false w1 in ((rn, false), w2)
       end
@@ -547,8 +589,18 @@ with hcall (fuel : nat) (cid : Z) (call : string) (args : list arg) (w : world) 
     if c_udp c then hr [AInt 0; ASym "err"] w
     else let '(n, ok, w1) := conn_writev f cid (segs_of args) w in hr [AInt n; err_sym ok] w1
   else if sym_eqb call "flush" then
+    if negb (c_opened c) then hr [ASym "err"] w else
     let '(r, w1) := el_write f cid 0 w in
-    hr [ASym (match r with RNil => "nil" | RShutdown => "shutdown" | _ => "err" end)] w1
+    match r with
+    | RNil =>
+        let c1 := wc w1 cid in
+        if negb (l_et (st w1)) && c_opened c1 && (match c_out c1 with [] => false | _ => true end) then
+          let '(r2, w2) := epctl "mod" (c_fd c1) true false w1 in
+          hr [ASym (match r2 with RNil => "nil" | _ => "err" end)] w2
+        else hr [ASym "nil"] w1
+    | RShutdown => hr [ASym "shutdown"] w1
+    | _ => hr [ASym "err"] w1
+    end
   else if sym_eqb call "readfrom" then
     match args with
     | [ABytes d] => hr [AInt (zlen d); ASym "nil"] (wsetc w cid (c_set_out c (c_out c ++ d)))
@@ -626,6 +678,7 @@ Fixpoint el_read (fuel : nat) (cid : Z) (recv : Z) (w : world) {struct fuel} : r
           | AShutdown => (RShutdown, w4)
           | ANone =>
             let c4 := wc w4 cid in
+            if negb (c_opened c4) then (RNil, w4) else   (* closed inside OnTraffic *)
             let w5 := wsetc w4 cid (c_set_buf (c_set_in c4 (c_in c4 ++ c_buf c4)) []) in
             let c5 := wc w5 cid in
             if c_eof c5 || (l_et (st w5) && (recv' <? l_chunk (st w5)))
@@ -645,6 +698,12 @@ Definition el_open (fuel : nat) (cid : Z) (w : world) : res * world :=
   let w1 := wsetc w cid (c_set_opened c true) in
   let w2 := emit (obs "cb" [ASym "open"; AInt cid]) w1 in
   let '(act, reply, w3) := handler fuel cid w2 in
+  if negb (c_opened (wc w3 cid)) then      (* closed inside OnOpen *)
+    match act with
+    | AShutdown => (RShutdown, w3)
+    | _ => (RNil, w3)                      (* handleAction: close of a closed connection is a no-op *)
+    end
+  else
   (* c.open(out) *)
   let '(ok, w4) :=
     match reply with
@@ -656,6 +715,8 @@ Definition el_open (fuel : nat) (cid : Z) (w : world) : res * world :=
         | (KErr _, w') => (false, w')
         | (_, w') => (true, w')
         end
+      else if (match c_out c3 with [] => false | _ => true end) then
+        (true, wsetc w3 cid (c_set_out c3 (c_out c3 ++ data)))
       else
         (fix open_loop (k : nat) (data : list Z) (w : world) : bool * world :=
            match k with
